@@ -1,2 +1,136 @@
+"""E2 harness for the real `DistributedShampoo.step`: schedule flags, argument wiring, skip rule, group frame.
+
+Two parameter groups with fully symbolic hyperparameters and step counters; the distributor and the compiled /
+eager `_per_group_step` callable are stubs that record what they receive.
+"""
+from __future__ import annotations
+
+import z3
+
+from vlib.driver import prove, result
+from vlib.sym import Explorer, SymBool, SymInt, SymReal, assume
+from vlib.tensor import FakeTorch, SymTensor, rebind
+
+FUNC = "DistributedShampoo.step"
+
+
+class _Dist:
+    def __init__(self, nonempty, tag):
+        self.nonempty = nonempty
+        self.local_grad_selector = ("sel", tag)
+        self.local_masked_blocked_params = ("params", tag)
+        self.calls = 0
+
+    def merge_and_block_gradients(self):
+        self.calls += 1
+        return (SymTensor.array("grad"),) if self.nonempty else ()
+
+
+def _mk(gi, graft):
+    from distributed_shampoo import shampoo_types as st
+    g = {
+        st.LR: SymReal(f"lr_{gi}"), st.BETAS: (SymReal(f"beta1_{gi}"), SymReal(f"beta2_{gi}")), st.BETA3: SymReal(f"beta3_{gi}"),
+        st.WEIGHT_DECAY: SymReal(f"wd_{gi}"), st.MOMENTUM: SymReal(f"mu_{gi}"), st.DAMPENING: SymReal(f"damp_{gi}"),
+        st.GRAFTING_CONFIG: (object() if graft else None), st.PRECONDITION_FREQUENCY: SymInt(f"freq_{gi}"),
+        st.START_PRECONDITIONING_STEP: SymInt(f"start_{gi}"), st.USE_DECOUPLED_WEIGHT_DECAY: SymBool(z3.Bool(f"dec_{gi}")),
+        st.USE_BIAS_CORRECTION: SymBool(z3.Bool(f"bias_{gi}")), st.USE_NESTEROV: SymBool(z3.Bool(f"nest_{gi}")),
+        st.PARAMS: [],
+    }
+    return g
+
+
 def run(case, tier):
-    return []
+    import distributed_shampoo.distributed_shampoo as ds
+    from distributed_shampoo import shampoo_types as st
+
+    out = []
+    want_sub = case.split("/")[2] if case.count("/") >= 2 else None
+    for graft0 in (False, True):
+        for graft1 in (False, True):
+            for ne0 in (False, True):
+                for ne1 in (False, True):
+                    sub = f"g{int(graft0)}{int(graft1)}n{int(ne0)}{int(ne1)}"
+                    if want_sub is not None and sub != want_sub:
+                        continue
+
+                    def fn():
+                        groups = [_mk(0, graft0), _mk(1, graft1)]
+                        sls = []
+                        for gi, ne in enumerate((ne0, ne1)):
+                            assume(z3.Int(f"freq_{gi}") >= 1)
+                            assume(z3.Int(f"start_{gi}") >= z3.Int(f"freq_{gi}"))
+                            assume(z3.Int(f"t0_{gi}") >= 0)
+                            d = _Dist(ne, gi)
+                            sls.append({st.DISTRIBUTOR: d, st.PREVIOUS_GRAD_SELECTOR: d.local_grad_selector,
+                                        st.STEP: SymTensor.int_scalar(SymInt(f"t0_{gi}"))})
+                        calls = []
+                        opt = object.__new__(ds.DistributedShampoo)
+                        opt._per_group_state_lists = sls
+                        opt.param_groups = groups
+                        opt._device = "cpu"
+                        opt._per_group_step = lambda *a: calls.append(a)
+                        with rebind([(ds, "torch", FakeTorch())]):
+                            opt.step()
+                        return groups, sls, calls
+
+                    paths = Explorer().run(fn)
+                    mv = {}
+                    for gi in (0, 1):
+                        mv.update({f"t0_{gi}": z3.Int(f"t0_{gi}"), f"freq_{gi}": z3.Int(f"freq_{gi}"), f"start_{gi}": z3.Int(f"start_{gi}")})
+                    for pi, p in enumerate(paths):
+                        tag = f"[step/{sub}]#p{pi}"
+                        if p.outcome != "return":
+                            out.append(result(f"{FUNC}/no-exception{tag}", FUNC, "unknown" if p.outcome == "abort" else "violated",
+                                              text=f"{p.outcome}: {p.value!r}", case=case))
+                            continue
+                        groups, sls, calls = p.value
+                        hyp = p.cond()
+                        ne = (ne0, ne1)
+                        exp_calls = [gi for gi in (0, 1) if ne[gi]]
+                        ok_struct = len(calls) == len(exp_calls) and all(c[0] is sls[gi] for c, gi in zip(calls, exp_calls))
+                        out.append(result(f"{FUNC}/one-group-step-per-group-with-gradients{tag}", FUNC,
+                                          "discharged" if ok_struct else "violated", backend="call-log", case=case,
+                                          text="a group is stepped exactly once iff its masked gradient list is non-empty, with its own state lists",
+                                          model=dict(calls=len(calls), expected=len(exp_calls))))
+                        for gi in (0, 1):
+                            t0, f, s = z3.Int(f"t0_{gi}"), z3.Int(f"freq_{gi}"), z3.Int(f"start_{gi}")
+                            tpost = sls[gi][st.STEP].v
+                            if not ne[gi]:
+                                out.append(prove(f"{FUNC}/empty-group-counter-unchanged{tag}/g{gi}", FUNC, hyp, tpost == t0, model_vars=mv,
+                                                 text="no gradient in the group => step counter does not advance", case=case))
+                                continue
+                            out.append(prove(f"{FUNC}/counter-advances-by-one{tag}/g{gi}", FUNC, hyp, tpost == t0 + 1, model_vars=mv,
+                                             text="group with gradients: step counter += 1", case=case))
+                            if not ok_struct:
+                                continue
+                            c = calls[exp_calls.index(gi)]
+                            g = groups[gi]
+                            (sl, step_t, lr_t, beta1, beta3, wd, mu, damp, gnn, pac, dec, bias, ugm, nest) = c
+                            t = t0 + 1
+                            ident = (step_t is sls[gi][st.STEP] and beta1 is g[st.BETAS][0] and beta3 is g[st.BETA3]
+                                     and wd is g[st.WEIGHT_DECAY] and mu is g[st.MOMENTUM] and damp is g[st.DAMPENING]
+                                     and dec is g[st.USE_DECOUPLED_WEIGHT_DECAY] and bias is g[st.USE_BIAS_CORRECTION]
+                                     and nest is g[st.USE_NESTEROV] and gnn is (g[st.GRAFTING_CONFIG] is not None))
+                            out.append(result(f"{FUNC}/args-are-current-param-group-values{tag}/g{gi}", FUNC,
+                                              "discharged" if ident else "violated", backend="identity-check", case=case,
+                                              text="beta1, beta3, weight decay, momentum, dampening and flags passed to the group step are the group's current entries"))
+                            lr_ok = isinstance(lr_t, SymTensor) and lr_t.scalar
+                            out.append(prove(f"{FUNC}/lr-is-current-group-lr{tag}/g{gi}", FUNC, hyp,
+                                             (lr_t.v == z3.Real(f"lr_{gi}")) if lr_ok else z3.BoolVal(False), model_vars=mv,
+                                             text="lr tensor value == param_groups[i]['lr']", case=case))
+                            refresh = z3.Or(t == s, z3.And(t > s, t % f == 0))
+                            pac_t = pac.t if isinstance(pac, SymBool) else z3.BoolVal(bool(pac))
+                            out.append(prove(f"{FUNC}/refresh-flag=schedule{tag}/g{gi}", FUNC, hyp, pac_t == refresh, model_vars=mv,
+                                             text="perform_amortized_computation <=> t == start or (t > start and t % freq == 0)", case=case))
+                            ugm_t = ugm.t if isinstance(ugm, SymBool) else z3.BoolVal(bool(ugm))
+                            want = z3.And(t < s, z3.BoolVal(g[st.GRAFTING_CONFIG] is not None))
+                            out.append(prove(f"{FUNC}/grafting-flag=warmup{tag}/g{gi}", FUNC, hyp, ugm_t == want, model_vars=mv,
+                                             text="use_grafting_method <=> t < start and grafting configured", case=case))
+                    out.append(result(f"{FUNC}/cover:paths[step/{sub}]", FUNC, "violated" if paths else "discharged", kind="cover", case=case,
+                                      extra=dict(paths=len(paths))))
+    # canary
+    if want_sub in (None, "g00n00"):
+      out.append(prove(f"{FUNC}/canary:refresh-every-step", FUNC, z3.And(z3.Int("f") >= 1, z3.Int("s") >= z3.Int("f"), z3.Int("t") >= 1),
+                     z3.Or(z3.Int("t") == z3.Int("s"), z3.And(z3.Int("t") > z3.Int("s"), z3.Int("t") % z3.Int("f") == 0)),
+                     kind="canary", text="deliberately false: every step is a refresh step", case=case))
+    return out
